@@ -82,7 +82,7 @@ fn entries_of(snap: &Snapshot, k: &Key) -> Vec<Entry> { snap.iter().find(|(kk, _
 struct StepRec { tok_prefix: String, ev: Vec<(usize, Entry)>, pick: String, answer: String }
 
 pub fn run(ctx: &mut Ctx) {
-    let nsched: u64 = if ctx.quick() { 1200 } else { 20000 };
+    let nsched: u64 = if ctx.quick() { 2000 } else { 20000 };
     let verbose = std::env::var("XV_VERBOSE").is_ok();
     let old_hook = std::panic::take_hook();
     std::panic::set_hook(quiet_hook());
